@@ -176,5 +176,75 @@ func zzC10Results() {
 	zzCover("C10.result.done")
 }
 
+// periodic / multi-URR query (queryMultiURR): n (SEID, URR) pairs spread over three sessions, split
+// by the driver into netlink requests of at most MaxNetlinkUsageReportNum pairs. The simulated
+// kernel answers each request with one report per pair asked; the volume counters of every report
+// encode the pair (so that a report cannot stand in for another), and ONE pair, chosen by the
+// solver, carries fully symbolic counters. Every pair must come back exactly once, under its own
+// SEID, with its own values - also when a session's URRs straddle a request boundary.
+func zzC10Multi(n int) {
+	k := zzInstallKernel()
+	limit := gtp5gnl.MaxNetlinkUsageReportNum()
+	pick := nondetChoice("symbolic-pair", n)
+	sym := zzMkRep("m", 0)
+	mk := func(seid uint64, urr uint32) zzRep {
+		r := zzRep{urr: urr, seid: seid, trig: 0, start: zzNS[0], end: zzNS[0] + 7e9}
+		if int(urr-1000) == pick {
+			r.vol, r.start, r.end = sym.vol, sym.start, sym.end
+			return r
+		}
+		for i := range r.vol {
+			r.vol[i] = seid<<40 | uint64(urr)<<8 | uint64(i)
+		}
+		return r
+	}
+	k.reply = func(k *zzKernel, rq zzReq) ([]nl.Msg, error) {
+		attrs := rq.b[4:]
+		cnt := zzCountAttr(attrs, gtp5gnl.URR_MULTI_SEID_URRID)
+		var rs []zzRep
+		for i := 0; i < cnt; i++ {
+			e, _ := zzFindAttr(attrs, gtp5gnl.URR_MULTI_SEID_URRID, i)
+			u, ok1 := zzFindAttr(e, gtp5gnl.URR_ID, 0)
+			sd, ok2 := zzFindAttr(e, gtp5gnl.URR_SEID, 0)
+			if ok1 && ok2 {
+				rs = append(rs, mk(zzLE64(sd), zzLE32(u)))
+			}
+		}
+		return zzReportsMsg(rs), nil
+	}
+	g := zzGtp5g(7)
+	in := make(map[uint64][]uint32)
+	for i := 0; i < n; i++ {
+		seid := uint64(1 + i%3)
+		in[seid] = append(in[seid], uint32(1000+i))
+	}
+	out, err := g.psQueryURR(in)
+	zzAssert("C10.multi.no-error", err == nil)
+	zzAssert("C10.multi.sessions", len(out) == len(in))
+	for seid, ids := range in {
+		zzAssert("C10.multi.reports-per-session", len(out[seid]) == len(ids))
+		for _, id := range ids {
+			c := 0
+			for _, u := range out[seid] {
+				if u.URRID == id {
+					c++
+					zzCheckRep(u, mk(seid, id), 0, "multi")
+				}
+			}
+			zzAssert("C10.multi.each-pair-once", c == 1)
+		}
+	}
+	if n > limit {
+		zzCover("C10.multi.split")
+	}
+	zzCover("C10.multi.done")
+}
+
+func ZZ_C10_Multi() {
+	limit := gtp5gnl.MaxNetlinkUsageReportNum()
+	sizes := []int{1, 3, limit, limit + 1, 2*limit + 2}
+	zzC10Multi(sizes[nondetChoice("size", len(sizes))])
+}
+
 func ZZ_C10_Multicast() { zzC10Multicast() }
 func ZZ_C10_Results()   { zzC10Results() }
